@@ -1283,6 +1283,21 @@ for _tr, _me, _op in (('BitAnd', 'bitand', 'BitAnd'), ('BitOr', 'bitor', 'BitOr'
     MODELS['core::ops::%s::%s' % (_tr, _me)] = _arith_model(_op)
 
 
+def _checked(op):
+    def m(E, st, f, a, k, e):
+        x, y = a[0], a[1]
+        if op == 'Sub':
+            return E.fork_bool(st, E.binop('Lt', x, y), lambda s: k(s, NONE), lambda s: k(s, SOME(E.binop('Sub', x, y))))
+        ret = ('call', f['path'], tuple(a), None, st.epoch)
+        e['ret'] = ret
+        k(st, ret)
+    return m
+
+
+for _t in ('usize', 'u8', 'u16', 'u32', 'u64'):
+    MODELS['core::num::<impl %s>::checked_sub' % _t] = _checked('Sub')
+
+
 # ---- iterators ---------------------------------------------------------------------------------
 ITER = 'core::iter::Iterator::'
 PASS_ADAPT = ('copied', 'cloned', 'rev', 'by_ref', 'peekable', 'fuse', 'skip', 'take', 'step_by', 'chain', 'into_iter', 'iter', 'iter_mut', 'into_par_iter', 'par_iter', 'par_iter_mut', 'drain')
